@@ -438,7 +438,9 @@ PROPS = {
                 "command_not_found_handle, canaries, scratch directory) and the recovered "
                 "COMPREPLY/compadd/_filedir/_files data is compared with the revision-0 "
                 "candidates and completers (each exactly once); fish/elvish output is compared "
-                "line by line. evaluations = scripts judged. " + DISTINCT,
+                "line by line; every 8th case the static --bpaf-complete-style-* stubs are obtained "
+                "from a child process (exit 0, program name embedded, `bash -n` for bash/zsh). "
+                "evaluations = scripts judged. " + DISTINCT,
         "assumptions": COMMON_ASSUMPTIONS + [
             "zsh, fish and elvish are not installed: zsh directives (compadd, _files, local -a, "
             "descr=(..)) are executed under bash with stubs - they use only single-quote quoting, "
@@ -447,7 +449,7 @@ PROPS = {
         ],
         "must_observe": ["rev:1", "rev:7", "rev:8", "rev:9", "scripts_executed_in_bash",
                          "shape:echo-typed-word", "shape:candidates",
-                         "shape:candidates+completer"],
+                         "shape:candidates+completer", "static-stubs-checked"],
         "technique": "runtime monitoring: the emitted directives are executed by a real, "
                      "sandboxed bash with recording stubs and canaries (output-protocol monitor), "
                      "plus line/field lexers for fish and elvish",
